@@ -36,6 +36,7 @@ def evOfJson (j : Json) : Option Ev := do
   | "advance" => pure (.advance (← getNat? j "ms"))
   | "ka" => pure .keepaliveTimer
   | "idle" => pure .idleTimer
+  | "modulate" => pure (.modulate (← getInt? j "raw"))
   | _ => none
 
 def valToJson : Val → Json
